@@ -43,6 +43,71 @@ theorem resOK_pass (retT T T' : Ty) (Γ1 Γ' : Blocks Ty) (r : Res) (h : ResOK r
   case val v ρ => exact absurd rfl (hv v ρ)
   all_goals exact h
 
+theorem binop_eval_ok (P : Program) (n : Nat) (ρ : Blocks Val) (l r : TExpr) (op : BinOp)
+    (ret T1 T2 opnd res : Ty) (Γ1 Γ2 : Blocks Ty)
+    (ihl : ResOK ret T1 Γ1 (eval P n ρ l)) (hs1 : Ty.sub T1 opnd = true) (gO : good opnd = true)
+    (ihr : ∀ ρ1, envOK Γ1 ρ1 → ResOK ret T2 Γ2 (eval P n ρ1 r)) (hs2 : Ty.sub T2 opnd = true)
+    (hop : ∀ lv rv, hasTy lv opnd = true → hasTy rv opnd = true →
+      (∀ v, binopVal op lv rv = .ok v → hasTy v res = true) ∧
+      (∀ e, binopVal op lv rv = .error e → e.isTypeError = false)) :
+    ResOK ret res Γ2 (eval P (n + 1) ρ (.binop op l r)) := by
+  simp only [eval]
+  cases hl : eval P n ρ l with
+  | val lv ρ1 =>
+    rw [hl] at ihl
+    simp [ResOK] at ihl
+    have ihr' := ihr ρ1 ihl.2
+    simp only []
+    cases hr : eval P n ρ1 r with
+    | val rv ρ2 =>
+      rw [hr] at ihr'
+      simp [ResOK] at ihr'
+      have h := hop lv rv (hasTy_sub lv T1 opnd ihl.1 hs1 gO) (hasTy_sub rv T2 opnd ihr'.1 hs2 gO)
+      cases hb : binopVal op lv rv with
+      | ok v => simp [ResOK, ihr'.2, h.1 v hb]
+      | error er => simp [ResOK, h.2 er hb]
+    | _ => rw [hr] at ihr'; simp [ResOK] at ihr' ⊢; try exact ihr'
+  | _ => rw [hl] at ihl; simp [ResOK] at ihl ⊢; try exact ihl
+
+theorem hop_eq (op : BinOp) (h : op = .eq ∨ op = .ne) (lv rv : Val) :
+    (∀ v, binopVal op lv rv = .ok v → hasTy v tBool = true) ∧
+    (∀ e, binopVal op lv rv = .error e → e.isTypeError = false) := by
+  rcases h with rfl | rfl <;> simp [binopVal] <;> intro v hv <;> subst hv <;> simp [hasTy, isNamed, tBool]
+
+theorem hop_cmp (op : BinOp) (h : op = .lt ∨ op = .le ∨ op = .gt ∨ op = .ge) (lv rv : Val)
+    (h1 : hasTy lv tInt = true) (h2 : hasTy rv tInt = true) :
+    (∀ v, binopVal op lv rv = .ok v → hasTy v tBool = true) ∧
+    (∀ e, binopVal op lv rv = .error e → e.isTypeError = false) := by
+  obtain ⟨a, rfl⟩ := canon_int lv h1
+  obtain ⟨b, rfl⟩ := canon_int rv h2
+  have hbv : binopVal op (.int a) (.int b) = intBinop op a b := by
+    rcases h with rfl | rfl | rfl | rfl <;> simp [binopVal]
+  rw [hbv]
+  constructor
+  · intro v hv
+    have := intBinop_ok_val op (Or.inr h) a b v hv
+    rcases h with rfl | rfl | rfl | rfl <;> simpa [isIntArith] using this
+  · intro e he
+    exact intBinop_ok_err op (Or.inr h) a b e he
+
+theorem hop_bool (op : BinOp) (h : op = .and ∨ op = .or) (lv rv : Val)
+    (h1 : hasTy lv tBool = true) (h2 : hasTy rv tBool = true) :
+    (∀ v, binopVal op lv rv = .ok v → hasTy v tBool = true) ∧
+    (∀ e, binopVal op lv rv = .error e → e.isTypeError = false) := by
+  obtain ⟨a, rfl⟩ := canon_bool lv h1
+  obtain ⟨b, rfl⟩ := canon_bool rv h2
+  rcases h with rfl | rfl <;> simp [binopVal] <;> intro v hv <;> subst hv <;> simp [hasTy, isNamed, tBool]
+
+theorem hop_concat (lv rv : Val) (h1 : hasTy lv tStr = true) (h2 : hasTy rv tStr = true) :
+    (∀ v, binopVal .concat lv rv = .ok v → hasTy v tStr = true) ∧
+    (∀ e, binopVal .concat lv rv = .error e → e.isTypeError = false) := by
+  obtain ⟨a, rfl⟩ := canon_str lv h1
+  obtain ⟨b, rfl⟩ := canon_str rv h2
+  simp [binopVal]
+  intro v hv
+  subst hv
+  simp [hasTy, isNamed, tStr]
+
 theorem sound_sl (P : Program) : ∀ n,
     (∀ d e ret exp Γ ρ T Γ', slE P d e = true → tcExpr P ret exp Γ e = (T, Γ', []) →
       (∀ E, exp = some E → good E = true) → good ret = true →
@@ -264,7 +329,42 @@ theorem sound_sl (P : Program) : ∀ n,
                 exact intBinop_ok_err op (Or.inl hA) a b er hb
             | _ => rw [hr] at ihr; simp [ResOK] at ihr ⊢; try exact ihr
           | _ => rw [hl] at ihl; simp [ResOK] at ihl ⊢; try exact ihl
-        · sorry
+        · simp only [hA] at htc
+          have gBool : good tBool = true := by simp [good, tBool, goodName0]
+          have gInt : good tInt = true := by simp [good, tInt, goodName0]
+          have gStr : good tStr = true := by simp [good, tStr, goodName0]
+          by_cases hB : (op == .eq || op == .ne) = true
+          · simp only [hB, if_true] at htc
+            cases h1 : tcExpr P ret none Γ l with
+            | mk lt r1 =>
+            cases r1 with
+            | mk Γ1 d1 =>
+            rw [h1] at htc
+            simp only at htc
+            cases h2 : tcExpr P ret none Γ1 r with
+            | mk rt r2 =>
+            cases r2 with
+            | mk Γ2 d2 =>
+            rw [h2] at htc
+            simp only at htc
+            obtain ⟨hT, hΓ, hd, _⟩ := fin_inv _ _ _ _ _ _ htc
+            simp at hd
+            obtain ⟨hd1, hd2⟩ := hd
+            subst hd1
+            subst hd2
+            subst hT
+            subst hΓ
+            have hop' : op = .eq ∨ op = .ne := by simpa using hB
+            exact binop_eval_ok P n ρ l r op ret lt rt .any tBool Γ1 Γ'
+              (ihE d l ret none Γ ρ lt Γ1 hs.1 h1 (by simp) hret henv) (Ty.sub_any lt) (by simp [good])
+              (fun ρ1 h => ihE d r ret none Γ1 ρ1 rt Γ' hs.2 h2 (by simp) hret h) (Ty.sub_any rt)
+              (fun lv rv _ _ => hop_eq op hop' lv rv)
+          · simp only [hB] at htc
+            cases op <;> simp [isIntArith] at hA hB
+            all_goals simp at htc
+            all_goals
+              generalize hO : (_ : Ty) = opnd at htc
+            all_goals sorry
       | _ => simp [slE] at hs
     · intro d es ret exp Γ ρ T Γ' hs htc hexp hret henv
       cases d with
